@@ -72,3 +72,34 @@ def t_order_compare():
 def get_src_():
     from pyvc.src import get_src
     return get_src()
+
+
+# ----------------------------------------------------------------------------- Order.__init__ (C04: constructor validation of volume, ttl, kind/price combination)
+from pyvc.spec import FSpec      # noqa
+
+
+def oi_raises(st, a):
+    k, p, v, t = a["kind"].term, a["price"], a["volume"].term, a["ttl"]
+    return z3.Or(z3.And(k == 0, z3.Not(p.none)), z3.And(k == 1, p.none), v <= 0, z3.And(z3.Not(t.none), t.term <= 0))
+
+
+def oi_post(st0, st1, a, res):
+    o = a["self"].term
+    return [("the order carries exactly the given values; not placed unless told so; not cancelled",
+             z3.And(O(st1, "agent_id")[o] == a["agent_id"].term, O(st1, "market_id")[o] == a["market_id"].term, O(st1, "is_buy")[o] == a["is_buy"].term, O(st1, "kind")[o] == a["kind"].term,
+                    O(st1, "volume")[o] == a["volume"].term, O(st1, "price", "none")[o] == a["price"].none, z3.Implies(z3.Not(a["price"].none), O(st1, "price")[o] == a["price"].term),
+                    O(st1, "ttl", "none")[o] == a["ttl"].none, z3.Implies(z3.Not(a["ttl"].none), O(st1, "ttl")[o] == a["ttl"].term),
+                    O(st1, "placed_at", "none")[o] == a["placed_at"].none, O(st1, "order_id", "none")[o] == a["order_id"].none, z3.Not(O(st1, "is_canceled")[o]))),
+            ("C04 a constructed order has positive volume, a positive or absent time-to-live, and a price exactly when it is a limit order",
+             z3.And(O(st1, "volume")[o] >= 1, z3.Or(O(st1, "ttl", "none")[o], O(st1, "ttl")[o] >= 1), (O(st1, "kind")[o] == 0) == O(st1, "price", "none")[o]))]
+
+
+ORDER_INIT = FSpec("Order.__init__", post=oi_post, raises={"ValueError": oi_raises}, props=("C04",),
+                   pre=lambda st, a: [("kind is MARKET_ORDER or LIMIT_ORDER", z3.Or(a["kind"].term == 0, a["kind"].term == 1))],
+                   modifies=lambda st, a: [("f:Order." + f, [a["self"].term]) for f in ("agent_id", "market_id", "is_buy", "kind", "volume", "placed_at", "price", "order_id", "ttl", "is_canceled")])
+
+
+@task("Order.__init__", props=["C04", "C20"], functions=["Order.__init__"], replay="order_cmp")
+def t_order_init():
+    obl, info = ORDER_INIT.verify()
+    return {"obligations": obl, "info": [info]}
